@@ -2,21 +2,6 @@ From Coq Require Import QArith Lqa Lia Qround.
 From SE Require Import Base.Num Base.Res Base.NumProofs Misc.SegmentClip.
 Open Scope Q_scope.
 
-Lemma idx_S i : idx (S i) == idx i + 1.
-Proof. unfold idx. rewrite Nat2Z.inj_succ. unfold Z.succ. rewrite inject_Z_plus. reflexivity. Qed.
-
-Lemma idx_add i k : idx (i + k) == idx i + idx k.
-Proof. unfold idx. rewrite Nat2Z.inj_add, inject_Z_plus. reflexivity. Qed.
-
-Lemma idx_nonneg i : 0 <= idx i.
-Proof. unfold idx. change 0 with (inject_Z 0). rewrite <- Zle_Qle. lia. Qed.
-
-Lemma idx_le i j : (i <= j)%nat -> idx i <= idx j.
-Proof. intro H. unfold idx. rewrite <- Zle_Qle. lia. Qed.
-
-Lemma idx_lt i j : (i < j)%nat -> idx i + 1 <= idx j.
-Proof. intro H. rewrite <- idx_S. apply idx_le. lia. Qed.
-
 Section Loop.
 Variables (s e dur hop : Q) (incl : bool).
 Hypothesis Hhop : 0 < hop.
